@@ -11,6 +11,7 @@
 //!  4. random tableaux for larger n (row operations; packing across several u64 words).
 //!  5. random Clifford circuits with measurements and resets on 5..8 qubits (and a few wide ones).
 use q1t_harness::*;
+use q1t_harness::gate;
 use q1tsim::gates::*;
 use q1tsim::stabilizer::{MeasurementInfo, PauliOp, StabilizerTableau, StabilizerState};
 use q1tsim::qustate::QuState;
@@ -179,6 +180,139 @@ fn op_collapse(out: &mut Out, ts: &str, i: usize, q: usize, v: bool)
         &ok_tab(guarded(move || { let mut t = t0; t.collapse(i, q, v); t })));
 }
 
+/// `measure(q)` and, after `Random(i)`, `collapse(i, q, v)` with the index the code itself reported
+fn op_mcollapse(out: &mut Out, ts: &str, q: usize, v: bool)
+{
+    let t0 = build(ts);
+    let r = guarded(move || {
+        let mut t = t0;
+        match t.measure(q)
+        {
+            MeasurementInfo::Deterministic(b) => format!("det {}", b as u8),
+            MeasurementInfo::Random(i) => { t.collapse(i, q, v); format!("ok {}", text(&t)) }
+        }
+    });
+    out.case(&format!("mcollapse {} {} {}", ts, q, v as u8), &match r { Ok(a) => a, Err(e) => e });
+}
+
+/// a Clifford-only combinator gate (term grammar of harness/src/gate.rs) through the real `apply_gate`;
+/// `fs` = Some(description): the (flat) Composite is built with `Composite::from_string` instead of `add_gate`
+fn build_term(term: &str, fs: Option<(&str, &str)>) -> Result<Box<dyn Gate>, String>
+{
+    match fs
+    {
+        Some((name, desc)) => match Composite::from_string(name, desc)
+        {
+            Ok(c) => Ok(Box::new(c)),
+            Err(e) => Err(format!("from-string-error {:?}", e).replace('\t', " "))
+        },
+        None => Ok(Box::new(gate::parse_str(term)))
+    }
+}
+
+fn op_tgate(out: &mut Out, ts: &str, bits: &[usize], term: &str, fs: Option<(&str, &str)>)
+{
+    match build_term(term, fs)
+    {
+        Ok(g) => op_tgate_built(out, ts, bits, term, fs.is_some(), &*g),
+        Err(e) => out.case(&format!("tgate {} f {} {}", ts, join(bits).replace(' ', ","), term), &e)
+    }
+}
+
+fn op_tgate_built(out: &mut Out, ts: &str, bits: &[usize], term: &str, fs: bool, g: &dyn Gate)
+{
+    let t0 = build(ts);
+    let r = guarded(std::panic::AssertUnwindSafe(move || {
+        let mut t = t0;
+        let r = t.apply_gate(g, bits);
+        (t, r)
+    }));
+    let ans = match r
+    {
+        Ok((t, Ok(()))) => format!("ok {}", text(&t)),
+        Ok((_, Err(e))) => show_err(&e),
+        Err(e) => e
+    };
+    let mode = if fs { "f" } else { "a" };
+    out.case(&format!("tgate {} {} {} {}", ts, mode, if bits.is_empty() { "-".to_string() } else { bits.iter().map(|b| b.to_string()).collect::<Vec<_>>().join(",") }, term), &ans);
+}
+
+/// flat composite: (term text, from_string description)
+fn flat(name: &str, nb: usize, subs: &[(&str, &[usize])]) -> (String, String)
+{
+    let mut t = format!("Comp {} {} {}", name, nb, subs.len());
+    let mut d = vec![];
+    for (g, bits) in subs
+    {
+        t.push_str(&format!(" {} {} {}", g, bits.len(), join(bits)));
+        d.push(format!("{} {}", g, join(bits)));
+    }
+    (t, d.join("; "))
+}
+
+struct Term { arity: usize, text: String, fs: Option<(String, String)> }
+
+/// the Clifford-only combinator terms of stream 6
+fn clifford_terms() -> Vec<Term>
+{
+    let mut v = vec![];
+    let add_flat = |v: &mut Vec<Term>, name: &str, nb: usize, subs: &[(&str, &[usize])]| {
+        let (t, d) = flat(name, nb, subs);
+        let covers = subs.iter().any(|(_, b)| b.contains(&(nb - 1)));
+        v.push(Term { arity: nb, text: t.clone(), fs: None });
+        if covers { v.push(Term { arity: nb, text: t, fs: Some((name.to_string(), d)) }); }
+    };
+    // one qubit
+    add_flat(&mut v, "a1", 1, &[("H", &[0]), ("S", &[0])]);
+    add_flat(&mut v, "a2", 1, &[("V", &[0]), ("Y", &[0]), ("Sdg", &[0]), ("Vdg", &[0]), ("Z", &[0]), ("I", &[0]), ("X", &[0])]);
+    v.push(Term { arity: 1, text: "Loop l 3 b 1 2 H 1 0 S 1 0".into(), fs: None });
+    v.push(Term { arity: 1, text: "Comp o 1 2 Comp i 1 1 V 1 0 1 0 X 1 0".into(), fs: None });
+    // two qubits: ascending, descending operands
+    add_flat(&mut v, "b1", 2, &[("CX", &[1, 0])]);
+    add_flat(&mut v, "b2", 2, &[("CX", &[0, 1]), ("H", &[1]), ("CZ", &[1, 0])]);
+    add_flat(&mut v, "b3", 2, &[("CY", &[1, 0]), ("S", &[0])]);
+    add_flat(&mut v, "b4", 2, &[("Swap", &[1, 0]), ("V", &[1]), ("CY", &[0, 1])]);
+    add_flat(&mut v, "b5", 2, &[("H", &[0]), ("Sdg", &[1]), ("CX", &[0, 1]), ("Vdg", &[0]), ("CX", &[1, 0])]);
+    v.push(Term { arity: 2, text: "Kron H S".into(), fs: None });
+    v.push(Term { arity: 2, text: "Kron Vdg X".into(), fs: None });
+    v.push(Term { arity: 2, text: "Comp o 2 2 Comp i 2 1 CX 2 1 0 2 1 0 H 1 0".into(), fs: None });
+    v.push(Term { arity: 2, text: "Comp o 2 2 Kron S H 2 1 0 Comp i 2 2 CY 2 1 0 V 1 1 2 0 1".into(), fs: None });
+    for k in 0..=4 { v.push(Term { arity: 2, text: format!("Loop l {} b 2 3 H 1 0 CX 2 1 0 S 1 1", k), fs: None }); }
+    // three qubits: non-adjacent operands, mixed arities
+    add_flat(&mut v, "c1", 3, &[("CX", &[2, 0])]);
+    add_flat(&mut v, "c2", 3, &[("CX", &[2, 0]), ("CZ", &[0, 2]), ("CY", &[2, 1]), ("H", &[1])]);
+    add_flat(&mut v, "c3", 3, &[("CX", &[0, 2]), ("Swap", &[2, 1]), ("S", &[0]), ("CY", &[1, 0])]);
+    add_flat(&mut v, "c4", 3, &[("H", &[2]), ("CX", &[2, 1]), ("CX", &[1, 0]), ("V", &[0]), ("Swap", &[0, 2])]);
+    v.push(Term { arity: 3, text: "Kron CX H".into(), fs: None });
+    v.push(Term { arity: 3, text: "Kron H CX".into(), fs: None });
+    v.push(Term { arity: 3, text: "Kron S Kron V Sdg".into(), fs: None });
+    v.push(Term { arity: 3, text: "Kron Kron H Y Sdg".into(), fs: None });
+    v.push(Term { arity: 3, text: "Comp o 3 2 Kron CX H 3 2 0 1 Comp i 2 1 CX 2 1 0 2 2 1".into(), fs: None });
+    v.push(Term { arity: 3, text: "Comp o 3 2 Comp i 3 2 CZ 2 2 0 H 1 1 3 1 2 0 Loop l 2 b 2 2 CX 2 1 0 S 1 0 2 0 2".into(), fs: None });
+    v.push(Term { arity: 3, text: "Loop l 2 b 3 3 CX 2 2 0 H 1 1 CY 2 1 2".into(), fs: None });
+    v.push(Term { arity: 3, text: "Loop l 0 b 3 1 CX 2 2 0".into(), fs: None });
+    // four qubits
+    v.push(Term { arity: 4, text: "Kron CX CY".into(), fs: None });
+    v.push(Term { arity: 4, text: "Kron Kron H Y CY".into(), fs: None });
+    v.push(Term { arity: 4, text: "Kron Swap Kron H S".into(), fs: None });
+    v.push(Term { arity: 4, text: "Kron H Kron CZ V".into(), fs: None });
+    add_flat(&mut v, "d1", 4, &[("CX", &[3, 0]), ("CY", &[1, 3]), ("H", &[2]), ("Swap", &[2, 0]), ("CZ", &[3, 1])]);
+    v
+}
+
+/// all ordered k-tuples of distinct elements of 0..n
+fn tuples(n: usize, k: usize) -> Vec<Vec<usize>>
+{
+    let mut res: Vec<Vec<usize>> = vec![vec![]];
+    for _ in 0..k
+    {
+        let mut next = vec![];
+        for t in res.iter() { for x in 0..n { if !t.contains(&x) { let mut u = t.clone(); u.push(x); next.push(u); } } }
+        res = next;
+    }
+    res
+}
+
 fn op_reset(out: &mut Out, ts: &str, q: usize)
 {
     let t0 = build(ts);
@@ -209,6 +343,8 @@ fn public_ops(out: &mut Out, ts: &str, n: usize, collapse_any_row: bool)
             op_collapse(out, ts, i, q, false);
             op_collapse(out, ts, i, q, true);
         }
+        op_mcollapse(out, ts, q, false);
+        op_mcollapse(out, ts, q, true);
         op_reset(out, ts, q);
     }
     op_words(out, ts);
@@ -346,37 +482,43 @@ fn snapshot_texts(s: &StabilizerState) -> Vec<String>
     }
 }
 
-/// the range-level users in state.rs on one enumerated state
+/// the range-level users in state.rs on one enumerated state (every call under catch_unwind)
 fn state_users(out: &mut Out, n: usize, ts: &str, w: &[(&'static str, Vec<usize>)], seed: u64)
 {
     use rand::SeedableRng;
     let shots = 48;
-    let mut rng = rand::rngs::StdRng::seed_from_u64(seed);
-    let mut s = state_from_word(n, shots, w);
-    if snapshot_texts(&s) != vec![ts.to_string()]
-    {
-        out.case(&format!("peekall {}", ts), "state-rebuild-mismatch");
-        return;
-    }
-    let mut res = ndarray::Array1::<u64>::zeros(shots);
     let cbits: Vec<usize> = (0..n).collect();
-    let r = s.peek_all_into(&cbits, &mut res, &mut rng);
-    let mut obs: Vec<u64> = res.iter().cloned().collect();
-    obs.sort(); obs.dedup();
-    let unchanged = snapshot_texts(&s) == vec![ts.to_string()];
-    out.case(&format!("peekall {}", ts), &match r {
-        Ok(()) if unchanged => format!("obs {}", join(&obs)),
-        Ok(()) => "peek-changed-state".to_string(),
-        Err(e) => show_err(&e) });
+    let ts_owned = ts.to_string();
+    let wv: Vec<(&'static str, Vec<usize>)> = w.to_vec();
+    let r = guarded(std::panic::AssertUnwindSafe(|| {
+        let mut rng = rand::rngs::StdRng::seed_from_u64(seed);
+        let mut s = state_from_word(n, shots, &wv);
+        if snapshot_texts(&s) != vec![ts_owned.clone()] { return "state-rebuild-mismatch".to_string(); }
+        let mut res = ndarray::Array1::<u64>::zeros(shots);
+        let r = s.peek_all_into(&cbits, &mut res, &mut rng);
+        let mut obs: Vec<u64> = res.iter().cloned().collect();
+        obs.sort(); obs.dedup();
+        let unchanged = snapshot_texts(&s) == vec![ts_owned.clone()];
+        match r {
+            Ok(()) if unchanged => format!("obs {}", join(&obs)),
+            Ok(()) => "peek-changed-state".to_string(),
+            Err(e) => show_err(&e) }
+    }));
+    out.case(&format!("peekall {}", ts), &match r { Ok(a) => a, Err(e) => e });
     for q in 0..n
     {
-        let mut s = state_from_word(n, 1, w);
-        let r = s.measure(q, &mut rng);
-        let snap = snapshot_texts(&s);
-        out.case(&format!("smeasure {} {}", ts, q), &match r {
-            Ok(m) if snap.len() == 1 => format!("{} {}", m[0], snap[0]),
-            Ok(_) => "not-one-range".to_string(),
-            Err(e) => show_err(&e) });
+        let wv: Vec<(&'static str, Vec<usize>)> = w.to_vec();
+        let r = guarded(std::panic::AssertUnwindSafe(|| {
+            let mut rng = rand::rngs::StdRng::seed_from_u64(seed.wrapping_add(q as u64 + 1));
+            let mut s = state_from_word(n, 1, &wv);
+            let r = s.measure(q, &mut rng);
+            let snap = snapshot_texts(&s);
+            match r {
+                Ok(m) if snap.len() == 1 => format!("{} {}", m[0], snap[0]),
+                Ok(_) => "not-one-range".to_string(),
+                Err(e) => show_err(&e) }
+        }));
+        out.case(&format!("smeasure {} {}", ts, q), &match r { Ok(a) => a, Err(e) => e });
     }
 }
 
@@ -530,6 +672,38 @@ fn main()
         let n = rng.range(65, 68) as usize;
         circuits(&mut out, &mut rng, n, 25);
     }
+
+    // 6. Clifford-only combinator gates (Composite via add_gate and from_string, Kron, Loop, nesting) through apply_gate
+    let terms = clifford_terms();
+    let built: Vec<Box<dyn Gate>> = terms.iter().map(|t| build_term(&t.text, t.fs.as_ref().map(|(a, b)| (a.as_str(), b.as_str()))).expect("term builds")).collect();
+    let max_t = if deep { 4 } else { 3 };
+    for n in 1..=max_t
+    {
+        let e = enumerate(n);
+        let placements: Vec<Vec<Vec<usize>>> = (0..=4).map(|k| if k <= n { tuples(n, k) } else { vec![] }).collect();
+        for (k, ts) in e.texts.iter().enumerate()
+        {
+            // n <= 2: everything; n = 3: every term on every state, from_string variants on every 2nd; n = 4: every 24th state
+            if n == 4 && k % 24 != 0 { continue; }
+            for (ti, term) in terms.iter().enumerate()
+            {
+                if term.arity > n { continue; }
+                if n >= 3 && term.fs.is_some() && k % 2 == 1 { continue; }
+                // quick: for n = 3 the 5 loop-count variants and the arity-1 terms rotate over the states
+                if n == 3 && !deep && term.arity <= 2 && (ti + k) % 3 != 0 { continue; }
+                for bits in placements[term.arity].iter()
+                {
+                    op_tgate_built(&mut out, ts, bits, &term.text, term.fs.is_some(), &*built[ti]);
+                }
+            }
+        }
+    }
+    // mis-sized / duplicated operands for combinators
+    op_tgate(&mut out, "+ZI,+IZ", &[0], "Kron H S", None);
+    op_tgate(&mut out, "+ZI,+IZ", &[0, 0], "Kron H S", None);
+    op_tgate(&mut out, "+ZI,+IZ", &[0, 1], "Comp x 2 1 T 1 0", None);
+    op_tgate(&mut out, "+ZI,+IZ", &[0, 1], "Loop l 0 b 2 1 T 1 0", None);
+    op_tgate(&mut out, "+ZI,+IZ", &[1, 0], "C X", None);
 
     let n = out.finish();
     eprintln!("c03: {} cases", n);
